@@ -68,14 +68,18 @@ def exec_layouts(res, a, desc, rng, case):
     y = [Fraction(rng.randint(1, 64), 8) for _ in a.aliases] + ([Fraction(100)] if thermal else [])
     kh = [Fraction(rng.randint(1, 8), 8) for _ in a.info.heating]
     kc = [Fraction(rng.randint(1, 8), 8) for _ in a.info.cooling]
-    methods = ["dense", "sparse"] + ([] if (thermal or desc.get("rate_modifier") or desc.get("tmin") or desc.get("tmax")) else ["odeint"])
-    preps = [ol.prep_odeint(desc, ko) if m == "odeint" else ol.prep_fexjac(desc, m) for m in methods]
+    methods = ["dense", "sparse", "cusparse"] + ([] if (thermal or desc.get("rate_modifier") or desc.get("tmin") or desc.get("tmax")) else ["odeint"])
+    preps = [ol.prep_odeint(desc, ko) if m == "odeint" else ol.prep_cusparse(desc) if m == "cusparse" else ol.prep_fexjac(desc, m) for m in methods]
     diags = ol.compile_all([c for c, _ in preps])
     outs = {}
     for m, (_, exe), diag in zip(methods, preps, diags):
         out = None
         if diag is None:
-            out, diag = ol.run_fexjac(exe, [y] if m == "odeint" else [ko + kh + kc + y])
+            if m == "cusparse":      # a batch of two systems; the second one is compared with the dense matrix (its block lies at an offset)
+                out, diag = ol.run_fexjac(exe, [ko + kh + kc + [2 * v for v in y] + y], per_case=2)
+                out = out[1:] if out else out
+            else:
+                out, diag = ol.run_fexjac(exe, [y] if m == "odeint" else [ko + kh + kc + y])
         if out is None:
             if desc.get("ode_modifier") and "does not compile" in (diag or ""):
                 res.count("channel C skipped: modifier factor with user symbols")
@@ -92,6 +96,11 @@ def exec_layouts(res, a, desc, rng, case):
     rows_, cols_ = sp["S"]
     if not sp["J_ok"] or rows_ != [int(x) for x in j.rows] or cols_ != [int(x) for x in j.cols]:
         res.violation("oracle", f"channel C: the compiled sparse Jac fills rowptrs={rows_[:10]} colvals={cols_[:10]}; the generator's arrays are "
+                      f"{list(j.rows)[:10]} / {list(j.cols)[:10]}", case)
+        return
+    cu = outs["cusparse"]
+    if not cu["J_ok"] or cu["S"] != (rows_, cols_):
+        res.violation("oracle", f"channel C: the compiled InitJac (cuSPARSE) copies rowptrs={cu['S'][0][:10]} colvals={cu['S'][1][:10]}; the generator's arrays are "
                       f"{list(j.rows)[:10]} / {list(j.cols)[:10]}", case)
         return
     stored = {(r, cols_[p]) for r in range(n) for p in range(rows_[r], rows_[r + 1])}
